@@ -33,6 +33,7 @@ PAYLOADS = [
     "__class__", "None", "MISSING", "d", "value", "cls", "self", "kwargs",
 ]
 POSITIONS = ("alias_meta", "alias_annotated", "alias_config", "alias_meta_forbid", "alias_config_forbid", "alias_meta_allow",
+             "alias_meta_slowpath", "alias_config_omitdefault", "alias_annotated_byaliasflag",
              "typeddict_req", "typeddict_notreq", "discriminator", "literal_str", "literal_bytes", "enum_value", "nt_as_dict")
 
 
@@ -106,6 +107,21 @@ def probe(pos, s, ctx):
         kind = pos.split("_")[1]
         forbid, allow = pos.endswith("_forbid"), pos.endswith("_allow")
         cfg = dict(serialize_by_alias=True, forbid_extra_keys=forbid, allow_deserialization_not_by_alias=allow)
+        # to_dict is generated either as one dict literal or statement by statement (kwargs[...] = ...): the latter when a
+        # nullable field has a non-trivial packer, under omit_default, or with the by_alias keyword flag
+        extra_fields = []
+        to_kwargs = {}
+        if pos.endswith("_slowpath"):
+            import datetime
+            from typing import Optional
+            extra_fields = [("w", Optional[datetime.date], field(default=None))]
+        elif pos.endswith("_omitdefault"):
+            cfg["omit_default"] = True
+        elif pos.endswith("_byaliasflag"):
+            from mashumaro.config import TO_DICT_ADD_BY_ALIAS_FLAG
+            cfg["code_generation_options"] = [TO_DICT_ADD_BY_ALIAS_FLAG]
+            cfg["serialize_by_alias"] = False
+            to_kwargs = {"by_alias": True}
         xt, xf = int, field()
         if kind == "meta":
             xf = field(metadata={"alias": s})
@@ -114,9 +130,11 @@ def probe(pos, s, ctx):
         else:
             cfg["aliases"] = {"x": s}
         ns["Config"] = type("Config", (BaseConfig,), cfg)
-        cls = make_dataclass("K", [("x", xt, xf), ("y", int, field(default=9))], bases=(DataClassDictMixin,), namespace=ns)
+        cls = make_dataclass("K", [("x", xt, xf), ("y", int, field(default=9))] + extra_fields, bases=(DataClassDictMixin,),
+                             namespace=ns, module=ctx.modname)
         ctx.ns["K"] = cls
-        out = cls(1, 2).to_dict()
+        out = cls(1, 2).to_dict(**to_kwargs)
+        out.pop("w", None)
         need(out == {s: 1, "y": 2} and list(out)[0] == s, "wrong-key-written", f"to_dict -> {out!r}")
         r = cls.from_dict({s: 5})
         need((r.x, r.y) == (5, 9), "wrong-key-read", f"from_dict({{s: 5}}) -> {r!r}")
